@@ -658,7 +658,7 @@ def drain_bounded(ctx: Ctx):
         raise AnalysisError('no result-queue drain loop found in the executor')
 
 
-@rule('C05.TOPUP', ['C05', 'C11'])
+@rule('C05.TOPUP', ['C05', 'C11', 'C10'])
 def topup(ctx: Ctx):
     """Pending futures are started at submit time and again at wait time after finished work freed its
     slots; the runner reaches the executor on every normal path."""
